@@ -35,6 +35,8 @@ GLOBALS = {
     'omitted': 'ada::url_components::omitted',
     'ipv4_fast_fail': 'ada::checkers::ipv4_fast_fail',
     'char_class_table': 'ada::url_pattern_helpers::char_class_table',
+    'is_forbidden_domain_code_point_table__idna': 'ada::idna::is_forbidden_domain_code_point_table',
+    'max_domain_input_bytes': 'ada::idna::max_domain_input_bytes',
 }
 
 COMP = '{%uU,%uU,%uU,%uU,%uU,%uU,%uU,%uU}'
